@@ -295,42 +295,55 @@ def check(model, rep, tier):
             lam_ok = 'ast.Lambda' in src and all(k in src for k in (
                 'posonlyargs', '.args', 'kwonlyargs', 'vararg', 'kwarg')) and \
                 '.arg' in src
-            # every parameter of every nested lambda is collected: some construct
-            # adds <elem>.arg for every element of the five parameter groups that
-            # is not None, and is never left early
+            # every parameter of every nested lambda is collected: the helper
+            # yields <p>.arg for every non-None p of the five parameter groups
+            # of every Lambda found by ast.walk (loops, guard clauses and
+            # comprehensions are all read as generator levels)
+            from sa import collect
             hf = r[1]
-            forms = []
-            for f in ast.walk(hf.node):
-              if isinstance(f, ast.For) and isinstance(f.target, ast.Name):
-                adds = [c for c in ast.walk(f) if isinstance(c, ast.Call) and isinstance(
-                    c.func, ast.Attribute) and c.func.attr == 'add' and c.args and
-                        core.norm(c.args[0]) == f.target.id + '.arg']
-                if len(adds) == 1:
-                  fake = ast.FunctionDef(name='_b', args=hf.node.args, body=f.body,
-                                         decorator_list=[], lineno=f.lineno)
-                  jumps = any(isinstance(x, (ast.Break, ast.Return)) for x in ast.walk(f))
-                  forms.append((f.target.id, f.iter, formula.condition_formula(
-                      fake, adds[0], lambda e, t=f.target.id: 'NONE' if core.norm(e) ==
-                      t + ' is None' else None), jumps))
-              if isinstance(f, ast.Call) and isinstance(f.func, ast.Attribute) and \
-                  f.func.attr == 'update' and len(f.args) == 1 and isinstance(
-                      f.args[0], (ast.GeneratorExp, ast.ListComp, ast.SetComp)):
-                cg = f.args[0]
-                if len(cg.generators) == 1 and isinstance(cg.generators[0].target, ast.Name) \
-                    and core.norm(cg.elt) == cg.generators[0].target.id + '.arg':
-                  t = cg.generators[0].target.id
-                  cond = formula.TRUE
-                  for i in cg.generators[0].ifs:
-                    cond = cond & formula.bool_formula(
-                        i, lambda e, t=t: 'NONE' if core.norm(e) == t + ' is None' else None)
-                  forms.append((t, cg.generators[0].iter, cond, False))
-            lam_ok = lam_ok and len(forms) == 1
-            if lam_ok:
-              t, src, cond, jumps = forms[0]
-              srct = tpl.xnorm(hf, src, src)
-              lam_ok = not jumps and all(k in srct for k in (
-                  'posonlyargs', '.args', 'kwonlyargs', 'vararg', 'kwarg')) and \
-                  formula.equivalent(cond, ~formula.atom('NONE'))[0]
+            hp = hf.params()[0] if hf.params() else 'node'
+            ys, problems = collect.yields(hf.node)
+            groups = set()
+            shape_ok = bool(ys) and not problems
+            for levels, elt in ys:
+              if len(levels) != 2:
+                shape_ok = False
+                continue
+              l1, l2 = levels
+              t1, t2 = l1['target'], l2['target']
+
+              def at1(e, t1=t1):
+                t = core.norm(e)
+                if t == 'isinstance(%s, ast.Lambda)' % t1:
+                  return 'LAMBDA'
+                if t == '%s is %s' % (t1, hp):
+                  return 'SELF'
+                return None
+              c1 = formula.TRUE
+              for pol, t in l1['conds']:
+                f_ = formula.bool_formula(t, at1)
+                c1 = c1 & (f_ if pol == 'T' else ~f_)
+              L, S = formula.atom('LAMBDA'), formula.atom('SELF')
+              ok1 = core.norm(l1['iter']) == 'ast.walk(%s)' % hp and (
+                  formula.equivalent(c1, L & ~S)[0] or formula.equivalent(c1, L)[0])
+              c2 = formula.TRUE
+              for pol, t in l2['conds']:
+                f_ = formula.bool_formula(
+                    t, lambda e, t2=t2: 'NONE' if core.norm(e) == t2 + ' is None' else None)
+                c2 = c2 & (f_ if pol == 'T' else ~f_)
+              ok2 = formula.equivalent(c2, ~formula.atom('NONE'))[0] or (
+                  formula.equivalent(c2, formula.TRUE)[0])
+              if not (ok1 and ok2 and core.norm(elt) == t2 + '.arg'):
+                shape_ok = False
+                continue
+              got = {x.attr for x in ast.walk(l2['iter']) if isinstance(x, ast.Attribute)
+                     and core.norm(x.value) == t1 + '.args'}
+              # without the None filter only the list-valued groups are safe
+              if not formula.equivalent(c2, ~formula.atom('NONE'))[0]:
+                got -= {'vararg', 'kwarg'}
+              groups |= got
+            lam_ok = lam_ok and shape_ok and {'posonlyargs', 'args', 'kwonlyargs',
+                                              'vararg', 'kwarg'} <= groups
     rep.check(lam_ok, 'HYG-BIND', '%s:nested-lambda-parameters-reserved' % h.site,
               'lambdas nested in the function get no scope object of their own: '
               'generated calls in their bodies name the enclosing function\'s '
